@@ -19,6 +19,8 @@ func checkC20(c *Ctx) {
 	c.Rule("C20-R1", "ViewPort: every store of viewx/viewy (and of limx/limy/width/height in the size setters) is followed by the matching Validate call on every path to the return")
 	c.Rule("C20-R2", "ViewPort.SetContent: parent call only inside the four window tests, coordinates x-viewx+physx / y-viewy+physy; Fill covers [0,width)x[0,height) offset by the origin")
 	c.Rule("C20-R3", "BoxLayout: a method storing cells/orient/view sets changed or calls layout() before returning; Draw lays out under changed; Resize lays out")
+	c.Rule("C20-R7", "the surplus is shared in proportion to the fill factors: frac = extra*fill/total for cells with fill > 0, pad = int(frac), the lost fraction is kept, the remainder shrinks by pad; each remainder cell goes to one cell (pad+1) whose fraction is then zeroed")
+	c.Expect("C20-R7", 4)
 	c.Rule("C20-R6", "every child is placed on every layout pass: in hLayout/vLayout no iteration of the loop over the cells avoids the child's ViewPort.Resize and the widget's Resize (a skipped child keeps a stale rectangle)")
 	c.Expect("C20-R6", 4)
 	c.Rule("C20-R4", "hLayout/vLayout: the remainder loop decrements resid every cycle; resid is zero when the total fill is zero")
@@ -303,6 +305,69 @@ func checkC20(c *Ctx) {
 			}
 		}
 		c.Check(ok, "C20-R3", "layout:clears-changed", p.pos(l.Pos()), "layout() clears the flag after laying out")
+	}
+	// ---- R7: the shape of the proportional share.  Every cell with a positive fill factor gets
+	// int(extra * fill / total) cells of the surplus, keeps the fraction it lost, and the remainder is
+	// reduced by what it got; the remainder loop then hands single cells to the largest fractions and
+	// zeroes the fraction of the winner (so nobody gets two).  Operand roles are checked, not values.
+	for _, name := range []string{"hLayout", "vLayout"} {
+		fn := bl[name]
+		if fn == nil {
+			c.Undecided("C20-R7", name, "-", "not found")
+			continue
+		}
+		const cellOwner = "views.boxLayoutCell"
+		fieldOf := func(v ssa.Value, name string) bool {
+			ref, _, ok := loadedField(stripConv(v))
+			return ok && ref.Owner == cellOwner && ref.Name == name
+		}
+		share, padInt, fracRest, residSub, winPad, winFrac := false, false, false, false, false, false
+		for _, st := range storesTo(fn, cellOwner, "frac") {
+			v := st.Val
+			// frac = float64(extra) * fill / totf
+			if q, ok := v.(*ssa.BinOp); ok && q.Op == token.QUO {
+				if m, isM := q.X.(*ssa.BinOp); isM && m.Op == token.MUL {
+					if (fieldOf(m.Y, "fill") && !fieldOf(m.X, "fill")) || (fieldOf(m.X, "fill") && !fieldOf(m.Y, "fill")) {
+						if !fieldOf(q.Y, "fill") {
+							// guarded by fill > 0
+							for _, a := range guardsAt(st.Block()) {
+								if strings.Contains(a.L, "fill") && a.Op == ">" && a.R == "0" {
+									share = true
+								}
+							}
+						}
+					}
+				}
+			}
+			// frac -= float64(pad)
+			if sb, ok := v.(*ssa.BinOp); ok && sb.Op == token.SUB && fieldOf(sb.X, "frac") && fieldOf(sb.Y, "pad") {
+				fracRest = true
+			}
+			if k, ok := v.(*ssa.Const); ok && k.Value != nil && k.Value.String() == "0" {
+				winFrac = true
+			}
+		}
+		for _, st := range storesTo(fn, cellOwner, "pad") {
+			if cv, ok := st.Val.(*ssa.Convert); ok && fieldOf(cv.X, "frac") {
+				padInt = true
+			}
+			if ad, ok := st.Val.(*ssa.BinOp); ok && ad.Op == token.ADD && fieldOf(ad.X, "pad") {
+				if k, isK := constInt(ad.Y); isK && k == 1 {
+					winPad = true
+				}
+			}
+		}
+		eachInstr(fn, func(in ssa.Instruction) {
+			if sb, ok := in.(*ssa.BinOp); ok && sb.Op == token.SUB && fieldOf(sb.Y, "pad") {
+				if phi, isPhi := sb.X.(*ssa.Phi); isPhi && phi.Comment == "resid" {
+					residSub = true
+				}
+			}
+		})
+		c.Check(share && padInt && fracRest && residSub, "C20-R7", name+":proportional-share", p.pos(fn.Pos()),
+			fmt.Sprintf("frac = extra*fill/total under fill>0: %v; pad = int(frac): %v; frac -= pad: %v; resid -= pad: %v", share, padInt, fracRest, residSub))
+		c.Check(winPad && winFrac, "C20-R7", name+":remainder-one-cell-each", p.pos(fn.Pos()),
+			fmt.Sprintf("the winner of a remainder cell gets pad+1: %v and its fraction is zeroed: %v", winPad, winFrac))
 	}
 	// ---- R6: every child is placed on every layout pass.  In the loop that hands each cell its
 	// rectangle, no cycle avoids the ViewPort.Resize call (and the widget's Resize after it): a child that is
